@@ -109,7 +109,21 @@ func genRTCase(t *rapid.T) (*RTCase, bool) {
 		default:
 			r.Msg, r.HasMsg = genText(t, c14MsgRunes, 2, 10, "m"), true
 		}
+		if rapid.IntRange(0, 9).Draw(t, "ruleNameInText") == 4 {
+			// the NAME of another rule inside a value or a message is just text
+			word := rapid.SampledFrom([]string{"required", "exist", "either", "in", "re"}).Draw(t, "word")
+			if r.HasMsg && r.Msg != "" && !strings.Contains(r.Msg, "'") {
+				r.Msg = "not " + word + " on drafts " + r.Msg
+			} else if r.Key == "in" {
+				r.Val, r.HasVal = word+"/optional", true
+			}
+		}
 		c.Rules = append(c.Rules, r)
+	}
+	if n < 6 && rapid.IntRange(0, 4).Draw(t, "bareAfter") == 2 {
+		// a bare rule added by a LATER Set call for the same field
+		c.Rules = append(c.Rules, RuleSpec{Key: rapid.SampledFrom([]string{"required", "required", "exist", "phone"}).Draw(t, "bareKey")})
+		n++
 	}
 	c.Fields = rapid.SampledFrom([]string{"F", "F", "F,G", "G,F,H"}).Draw(t, "fields")
 	left := n
